@@ -167,8 +167,8 @@ long countCases(Ctx& c)
     if (c.prop != "C20")
         return -1;
     if (RUNNING_ON_VALGRIND)
-        return c.thorough() ? 60000 : 6400;
-    return c.thorough() ? 2000000 : 160000;
+        return c.thorough() ? 200000 : 6400;
+    return c.thorough() ? 10000000 : 160000;
 }
 
 }  // namespace
